@@ -316,7 +316,8 @@ example : (match checkFlags [root2, leaf1 1, { leaf1 2 with reg := 0 }] root2 wi
 
 /-- … and the theorems apply: the stored graph of the leaf multiplies out to its matrix, and the minor of `irr`
 refutes total unimodularity. -/
-example : checkGraphCert 1 1 [[1]] (leaf1 7).graph.get!.g [0] [1] false = .ok () :=
+example : checkGraphCert 1 1 [[1]]
+    { nodes := [0, 1], edges := [{ id := 0, u := 0, v := 1 }, { id := 1, u := 0, v := 1 }] } [0] [1] false = .ok () :=
   graph_cert_sound (nodes := [leaf1 7]) (nd := leaf1 7) rfl rfl rfl
 
 example : isTU 2 2 [[1, 1], [-1, 1]] = false :=
